@@ -107,6 +107,7 @@ func (c02) Plan(tier string, seed int64) []mon.Workload {
 		{Name: "trees", N: trees},
 		{Name: "retyped-in-loop", N: int64(len(gen.BinOps) * len(c02Retypes) * len(c02RetypeLoops)), Exhaustive: true},
 		{Name: "literal-chains", N: int64(len(c02ChainOps) * len(c02Operands) * len(c02ChainConsts) * len(c02ChainConsts)), Exhaustive: true},
+		{Name: "in-context", N: int64(len(gen.BinOps) * len(c02CtxVals) * len(c02CtxVals) * len(c02Contexts)), Exhaustive: true},
 	}
 }
 
@@ -118,6 +119,43 @@ func (c02) Plan(tier string, seed int64) []mon.Workload {
 // mixed chain `x OP c1 OP2 c2`.
 var c02ChainOps = []string{"+", "*", "-", "/", "%", "+*", "*+", "-+"}
 var c02ChainConsts = []string{"1", "3", "5", "9007199254740993", "4294967296", "0", "7"}
+
+// in-context (exhaustive): `x OP y` (variables; one value per type class)
+// written where a statement takes a condition or a clause - loop condition
+// with and without the other clauses, if / elif condition, inside a loop
+// body, inside literals - instead of as a probe argument: the operator gives
+// the same value, or the same error, wherever it is written.
+var c02CtxVals = []string{"nil", "true", "1", "3", "0.5", "\"a\"", "\"3\"", "[1, 2]", "{\"a\": 1}"}
+var c02Contexts = []string{
+	"for i = 0; x OP y; i = i + 1 {\n  p(\"body\", i)\n  if i >= 1 {\n    break\n  }\n}\n",
+	"for ; x OP y; {\n  p(\"body\")\n  break\n}\n",
+	"for x = X0; x OP y; x = x + 1 {\n  p(\"body\", x)\n  if x >= 2 {\n    break\n  }\n}\n",
+	"if x OP y {\n  p(\"then\")\n} else {\n  p(\"else\")\n}\n",
+	"if false {\n} elif x OP y {\n  p(\"elif\")\n} else {\n  p(\"else\")\n}\n",
+	"for e in [1, 2] {\n  if x OP y {\n    continue\n  }\n  p(e)\n}\n",
+	"p([x OP y], {\"k\": x OP y})\n",
+	"z = x OP y\np(z)\n",
+}
+
+func c02InContext(i int64) c02Case {
+	ctx := c02Contexts[int(i)%len(c02Contexts)]
+	i /= int64(len(c02Contexts))
+	n := int64(len(c02CtxVals))
+	yv := c02CtxVals[i%n]
+	i /= n
+	xv := c02CtxVals[i%n]
+	op := gen.BinOps[i/n]
+	text := "x = " + xv + "\ny = " + yv + "\n" + strings.ReplaceAll(strings.ReplaceAll(ctx, "OP", op), "X0", xv) + "p(\"end\")\n"
+	o := drive.Parse("in-context", text)
+	if o.Err != nil {
+		return c02Case{Skip: true}
+	}
+	l, err := gt.FromStmts(o.Stmts)
+	if err != nil {
+		panic(err)
+	}
+	return c02Case{Stmts: gt.CloneStmts(l), Point: gen.ModelPoint(gen.Rand(1), nil, nil), Cell: ""}
+}
 
 func c02Chain(i int64) c02Case {
 	n := len(c02ChainConsts)
@@ -205,6 +243,8 @@ func (c02) build(c *mon.Ctx, workload string, i int64) c02Case {
 		return c02Retyped(i)
 	case "literal-chains":
 		return c02Chain(i)
+	case "in-context":
+		return c02InContext(i)
 	case "binary-table":
 		src := int(i % 3)
 		i /= 3
